@@ -792,6 +792,19 @@ func (c *Cluster) RemoveNode(n *Node) {
 	n.SetDown(true)
 }
 
+// RemoveNodeKeepUp takes n out of the cluster's membership (it is no longer listed in system.peers) but leaves it
+// reachable: a node that is leaving still answers for a moment.
+func (c *Cluster) RemoveNodeKeepUp(n *Node) {
+	c.mu.Lock()
+	for i, x := range c.Nodes {
+		if x == n {
+			c.Nodes = append(c.Nodes[:i:i], c.Nodes[i+1:]...)
+			break
+		}
+	}
+	c.mu.Unlock()
+}
+
 // ReturnNode puts a node that was removed back into the cluster, as it was (same id, same address), and lets it
 // accept connections again.
 func (c *Cluster) ReturnNode(n *Node) {
